@@ -31,7 +31,8 @@ REAL = ['asyncssh connection/channel/session/stream code of both endpoints',
 STUB = ['event loop + clock', 'TCP sockets/listener', 'DNS', 'executor',
         'OS randomness (DRBG)']
 PROBES = ['reader_paused', 'short_reads', 'text_split_char', 'window_small',
-          'multi_channel', 'stderr_data', 'eof_sent', 'closed_behind_eof']
+          'multi_channel', 'stderr_data', 'eof_sent', 'closed_behind_eof',
+          'stream_cut_in_character']
 
 
 def gen_plan(rng):
